@@ -178,17 +178,23 @@ Fixpoint span_digits (s : str) : str * str :=
 (* scanner NUMBER_RE: optional minus, then 0 or a digit run without leading zero; optionally . and digits;
    optionally e/E, optional sign, digits - the longest prefix the regular expression matches *)
 Definition scan_int (s : str) : option (str * str) :=
-  let '(sg, s1) := match s with 45 :: t => ([45], t) | _ => ([], s) end in
+  let '(sg, s1) := match s with
+                   | c :: t => if c =? 45 then ([45], t) else ([], s)
+                   | [] => ([], s)
+                   end in
   match s1 with
-  | 48 :: t => Some (sg ++ [48], t)
-  | _ => let '(ds, r) := span_digits s1 in
-         match ds with [] => None | _ => Some (sg ++ ds, r) end
+  | c :: t => if c =? 48 then Some (sg ++ [48], t)
+              else let '(ds, r) := span_digits s1 in
+                   match ds with [] => None | _ => Some (sg ++ ds, r) end
+  | [] => None
   end.
 Definition scan_frac (s : str) : str * str :=
   match s with
-  | 46 :: t => let '(ds, r) := span_digits t in
-               match ds with [] => ([], s) | _ => (46 :: ds, r) end
-  | _ => ([], s)
+  | c :: t => if c =? 46 then
+                let '(ds, r) := span_digits t in
+                match ds with [] => ([], s) | _ => (46 :: ds, r) end
+              else ([], s)
+  | [] => ([], s)
   end.
 Definition scan_exp (s : str) : str * str :=
   match s with
@@ -286,21 +292,19 @@ Fixpoint parse_val (fuel : nat) (s : str) : option (jv * str) :=
     | c :: t =>
       if c =? 34 then match scan_str t with Some (x, r) => Some (JStr x, r) | None => None end
       else if c =? 123 then
-        match skip_ws t with
-        | 125 :: r => Some (JObj [], r)
-        | t1 => match parse_members (parse_val f) (S (List.length t1)) t1 with
-                | Some (kvs, r) => Some (JObj kvs, r)
-                | None => None
-                end
-        end
+        let t1 := skip_ws t in
+        if (match t1 with c1 :: _ => c1 =? 125 | [] => false end) then Some (JObj [], tl t1)
+        else match parse_members (parse_val f) (S (List.length t1)) t1 with
+             | Some (kvs, r) => Some (JObj kvs, r)
+             | None => None
+             end
       else if c =? 91 then
-        match skip_ws t with
-        | 93 :: r => Some (JArr [], r)
-        | t1 => match parse_elems (parse_val f) (S (List.length t1)) t1 with
-                | Some (vs, r) => Some (JArr vs, r)
-                | None => None
-                end
-        end
+        let t1 := skip_ws t in
+        if (match t1 with c1 :: _ => c1 =? 93 | [] => false end) then Some (JArr [], tl t1)
+        else match parse_elems (parse_val f) (S (List.length t1)) t1 with
+             | Some (vs, r) => Some (JArr vs, r)
+             | None => None
+             end
       else if c =? 110 then match drop_prefix lit_null s with Some r => Some (JNull, r) | None => None end
       else if c =? 116 then match drop_prefix lit_true s with Some r => Some (JBool true, r) | None => None end
       else if c =? 102 then match drop_prefix lit_false s with Some r => Some (JBool false, r) | None => None end
